@@ -620,6 +620,7 @@ func tornFileProtection(c *Ctx) {
 		return
 	}
 	cas := constOfKind(c, "CAS")
+	itemObj := lhsObjOfCall(fi, "disk.(*SizedLRU).Get", 0)
 	verdict := map[string]bool{}
 	where := map[string]string{}
 	traces := map[string][]string{}
@@ -627,28 +628,25 @@ func tornFileProtection(c *Ctx) {
 	b = NewBase(Hooks{
 		Call: func(x *Exec, call *ast.CallExpr, lhs []ast.Expr, s St) ([]St, bool) {
 			k := calleeKey(x.Fn.Info, call)
-			if (k == "casblob.GetZstdReadCloser" || k == "casblob.GetUncompressedReadCloser") && len(lhs) == 2 {
+			if (k == "casblob.GetZstdReadCloser" || k == "casblob.GetUncompressedReadCloser") && (len(lhs) == 2 || (len(lhs) == 0 && x.RetCall != nil)) {
 				return b.ForkErr(x, lhs, 1, s, func(ok St) St { return ok.Set("hdr", "1") }, nil), true
 			}
-			if len(lhs) >= 1 {
-				if tv := x.Fn.Info.TypeOf(lhs[len(lhs)-1]); tv != nil && tv.String() == "error" {
-					return b.ForkErr(x, lhs, len(lhs)-1, s, nil, nil), true
-				}
-			}
-			return nil, false
+			return errFork(b)(x, call, lhs, s)
 		},
 		Exit: func(x *Exec, ret *ast.ReturnStmt, s St) {
 			if ret == nil || len(ret.Results) != 4 || RetNil(x.Fn, s, 0) == "nil" || RetNil(x.Fn, s, 3) == "nonnil" {
 				return
 			}
 			isCAS, legacy := "", ""
-			for a, v := range s.m {
-				if strings.HasPrefix(a, "p:#"+cas+"==kind@") {
-					isCAS = v
+			// roles: the kind is the first parameter; the item is what lru.Get returned
+			if v, known := relLookup(s, "#"+cas, "==", paramTerm(x.Fn, 0)); known {
+				isCAS = "F"
+				if v {
+					isCAS = "T"
 				}
-				if strings.HasPrefix(a, "b:item@") && strings.HasSuffix(a, ".legacy") {
-					legacy = v
-				}
+			}
+			if itemObj != nil {
+				legacy = s.Get("b:" + objID(itemObj) + ".legacy")
 			}
 			class := "ac-raw"
 			switch {
@@ -658,6 +656,13 @@ func tornFileProtection(c *Ctx) {
 				class = "cas-compressed"
 			case isCAS == "T":
 				class = "cas-unknown-layout"
+				if os.Getenv("VDEBUG") != "" {
+					for a, v := range s.m {
+						if strings.Contains(a, "legacy") || strings.HasPrefix(a, "arg:") {
+							fmt.Fprintln(os.Stderr, "DBG", a, "=", v, "item:", objID(itemObj))
+						}
+					}
+				}
 			}
 			ok := s.Get("hdr") == "1"
 			if prev, seen := verdict[class]; !seen || (prev && !ok) {
@@ -669,6 +674,7 @@ func tornFileProtection(c *Ctx) {
 			}
 		},
 	})
+	b.InlineOwnHelpers()
 	x := NewExec(c.P.FlowOf(fi), b)
 	x.Run(newSt())
 	classes := []string{}
